@@ -1366,6 +1366,25 @@ class Frame:
 
     def e_ListComp(self, node):
         gens = node.generators
+        if len(gens) == 2 and not any(g.ifs or g.is_async for g in gens):
+            # [e for a in A for b in B(a)] is the concatenation of the lists [e for b in B(a)], a in A
+            inner = ast.ListComp(elt=node.elt, generators=[gens[1]])
+            outer = ast.ListComp(elt=inner, generators=[gens[0]])
+            ast.copy_location(inner, node)
+            ast.copy_location(outer, node)
+            ast.fix_missing_locations(outer)
+            parts = self.e_ListComp(outer)
+            from . import lazyseq
+            if isinstance(parts, list):
+                if all(isinstance(p_, list) for p_ in parts):
+                    return [x for p_ in parts for x in p_]
+                raise Unsupported("nested comprehension: concrete outer loop over lists of symbolic length")
+            if type(parts).__name__ == "SymList":
+                # ragged: segment s of the result starts at off(s), a ghost supplied by the contract (eng.ghost_offsets) and checked at the generic segment
+                arr = lazyseq.concat_symlist(self.eng, parts, 1)
+                af = arr.fn
+                return lazyseq.SymList(arr.shape[0], lambda j: af(j), scalar=True)
+            raise Unsupported("nested comprehension over this iterable")
         if len(gens) == 1 and not gens[0].ifs and isinstance(gens[0].iter, ast.Call) and isinstance(gens[0].iter.func, ast.Name) and gens[0].iter.func.id == "range" \
                 and 1 <= len(gens[0].iter.args) <= 2 and not gens[0].iter.keywords:
             # [f(i) for i in range(n)] / range(a, b) with a symbolic length: the list of the images, evaluated lazily and memoised per index term
